@@ -521,6 +521,13 @@ cpdef skip_map(fo, writer_schema, named_schemas):
         block_count = read_long(fo)
 
 
+def _named_type_name(schema, named_schemas):
+    """Name of a named type that is given inline (dict) or by reference (str)"""
+    if isinstance(schema, dict):
+        return schema["name"]
+    return named_schemas[schema]["name"]
+
+
 cpdef read_union(
     fo,
     writer_schema,
@@ -579,13 +586,15 @@ cpdef read_union(
         return result
     elif return_named_type and extract_record_type(idx_schema) in NAMED_TYPES:
         schema_name = (
-            idx_reader_schema["name"] if idx_reader_schema else idx_schema["name"]
+            _named_type_name(idx_reader_schema, named_schemas["reader"])
+            if idx_reader_schema
+            else idx_schema["name"]
         )
         return (schema_name, result)
     elif return_named_type and extract_record_type(idx_schema) not in AVRO_TYPES:
         # idx_schema is a named type
         schema_name = (
-            named_schemas["reader"][idx_reader_schema]["name"]
+            _named_type_name(idx_reader_schema, named_schemas["reader"])
             if idx_reader_schema
             else named_schemas["writer"][idx_schema]["name"]
         )
@@ -594,13 +603,15 @@ cpdef read_union(
         return result
     elif return_record_name and extract_record_type(idx_schema) == "record":
         schema_name = (
-            idx_reader_schema["name"] if idx_reader_schema else idx_schema["name"]
+            _named_type_name(idx_reader_schema, named_schemas["reader"])
+            if idx_reader_schema
+            else idx_schema["name"]
         )
         return (schema_name, result)
     elif return_record_name and extract_record_type(idx_schema) not in AVRO_TYPES:
         # idx_schema is a named type
         schema_name = (
-            named_schemas["reader"][idx_reader_schema]["name"]
+            _named_type_name(idx_reader_schema, named_schemas["reader"])
             if idx_reader_schema
             else named_schemas["writer"][idx_schema]["name"]
         )
